@@ -292,7 +292,7 @@ harness(void) {
 
     /* ---- witnesses ---- */
     if (triv) VP_WITNESS("trivial-move");
-#if VP_NCL >= 2 || VP_NCL2 >= 1
+#if (VP_NCL >= 2 || VP_NCL2 >= 1) && !defined(VP_UKEYS)
     if (!triv && n1 == 0) VP_WITNESS("rewritten-because-of-grandparents-or-several-inputs");
 #endif
 #if VP_NCL >= 2 && VP_CL > 0
